@@ -1084,9 +1084,25 @@ def desugar_str_match(toks, log):
                 ok = False
                 break
             bs = _next_sig(toks, a2)
-            if bs is None or not _is(toks[bs], 'punct', '{'):
+            if bs is None:
                 ok = False
                 break
+            if not _is(toks[bs], 'punct', '{'):
+                # an arm whose body is a plain expression (the copies R26 makes of an or-pattern arm): the expression up to the `,` at depth 0, in braces
+                d2 = 0
+                e = bs
+                while e < close:
+                    t2 = toks[e]
+                    if t2.kind == 'punct' and t2.text in '([{':
+                        d2 += 1
+                    elif t2.kind == 'punct' and t2.text in ')]}':
+                        d2 -= 1
+                    elif t2.kind == 'punct' and t2.text == ',' and d2 == 0:
+                        break
+                    e += 1
+                arms.append((pat.text, '{ ' + text(toks[bs:e]).strip() + ' }'))
+                i = _next_sig(toks, e) if e < close else None
+                continue
             be = match_close(toks, bs)
             arms.append((pat.text, text(toks[bs:be + 1])))
             i = _next_sig(toks, be)
